@@ -126,6 +126,8 @@ type vbind struct {
 	name       string
 	data       int // file index of the data file
 	viaInclude bool
+	rebound    bool // the same file binds the name again later (C18.F3 when used in between)
+	used       bool
 	prev       *vbind
 }
 
@@ -238,6 +240,7 @@ type model struct {
 	// structural classes
 	leakHit    bool // a body calls a builtin whose name an importer up the chain has bound (F14)
 	inclVar    bool // a reference resolves to a data variable bound by an included module (C18.F1)
+	rebindHit  bool // included text uses a data variable that its includer binds again afterwards (C18.F3)
 	diamond    bool
 	clash      bool
 	multi      bool // some directive had >= 2 existing candidate files
@@ -406,6 +409,7 @@ func (m *model) proc(fi int, sc scope, depth int) scope {
 		inherited = nil
 	}
 	aliases := map[string]bool{}
+	mine := map[string]*vbind{} // data variables bound by this file instance
 	for _, d := range f.Dirs {
 		if m.notFound != "" || len(m.errs) > 0 {
 			return sc
@@ -443,8 +447,17 @@ func (m *model) proc(fi int, sc scope, depth int) scope {
 				m.dataBound[ti] = true
 				m.dataOrder = append(m.dataOrder, ti)
 			}
-			sc.v = &vbind{"$" + d.Alias, ti, false, sc.v}
-			sc.v = &vbind{"$" + d.Alias + "::" + d.Alias, ti, false, sc.v}
+			for _, n := range []string{"$" + d.Alias, "$" + d.Alias + "::" + d.Alias} {
+				if prev := mine[n]; prev != nil {
+					prev.rebound = true
+					if prev.used {
+						m.rebindHit = true
+					}
+				}
+				nb := &vbind{name: n, data: ti, prev: sc.v}
+				mine[n] = nb
+				sc.v = nb
+			}
 		case "include":
 			m.nInclude++
 			base := sc.v
@@ -456,7 +469,7 @@ func (m *model) proc(fi int, sc scope, depth int) scope {
 				added = append(added, h)
 			}
 			for i := len(added) - 1; i >= 0; i-- {
-				sc.v = &vbind{added[i].name, added[i].data, true, sc.v}
+				sc.v = &vbind{name: added[i].name, data: added[i].data, viaInclude: true, prev: sc.v}
 			}
 		case "import":
 			m.nImport++
@@ -563,6 +576,7 @@ func (m *model) inl(e expr, sc scope, params map[string]bool, inherited *fbind) 
 		if b.viaInclude {
 			m.inclVar = true
 		}
+		b.used = true
 		return fmt.Sprintf("$uD%d", b.data)
 	case "call":
 		var name string
@@ -617,7 +631,7 @@ func (m *model) run() {
 				added = append(added, h)
 			}
 			for k := len(added) - 1; k >= 0; k-- {
-				sc.v = &vbind{added[k].name, added[k].data, true, sc.v}
+				sc.v = &vbind{name: added[k].name, data: added[k].data, viaInclude: true, prev: sc.v}
 			}
 			if m.notFound != "" || len(m.errs) > 0 {
 				return
